@@ -273,6 +273,20 @@ def r19g(ctx):
           and "{key: val for key, val in sub_kwargs.items() if key != bad_kw}" in txt and "'got an unexpected keyword argument' in msg" in txt)
     ctx.check(ok, "R19g", f"{CD}.triggered", "require_mc_truth is always passed; on TypeError exactly the named keyword is removed and the call retried", "",
               key_detail="trigger kwarg stripping")
+    # the working copy of the keywords starts from the full set for EVERY subset: a keyword rejected by one subset must still reach the next one
+    resets = [n for n in ast.walk(fn) if isinstance(n, ast.Assign) and u(n.targets[0]) == "sub_kwargs" and u(n.value) == "kwargs"]
+    ok_r = len(resets) == 1
+    if ok_r:
+        q = parent(resets[0])
+        inside = False
+        while q is not None and q is not fn:
+            if isinstance(q, ast.For) and u(q.iter) == "self.subsets":
+                inside = True
+            q = parent(q)
+        wl = [n for n in ast.walk(fn) if isinstance(n, ast.While)]
+        ok_r = inside and len(wl) == 1 and not any(resets[0] is x for x in ast.walk(wl[0]))
+    ctx.check(ok_r, "R19g", f"{CD}.triggered", "the keyword set is reset to the full kwargs for each subset (inside the subset loop, before the retry loop)", "",
+              key_detail="per-subset keyword reset")
     ok = "if sub_kwargs == prev_kwargs:\n" in txt and "raise e" in txt
     ctx.check(ok, "R19g", f"{CD}.triggered", "other TypeErrors propagate and a retry that removes nothing stops the loop", "", key_detail="retry termination")
 
@@ -302,6 +316,10 @@ def run(ctx):
 
 SELFTEST = {
     "faults": [
+        {"name": "keyword reset hoisted out of the subset loop", "file": "pyrex/detector.py",
+         "edits": [{"file": "pyrex/detector.py", "old": "                    sub_kwargs = kwargs\n                    while True:", "new": "                    while True:"},
+                   {"file": "pyrex/detector.py", "old": "        kwargs['require_mc_truth'] = require_mc_truth\n", "new": "        kwargs['require_mc_truth'] = require_mc_truth\n        sub_kwargs = kwargs\n"}],
+         "rule": "R19g"},
         {"name": "operands swapped in CombinedDetector.__add__", "file": "pyrex/detector.py", "old": "            return CombinedDetector(*self.subsets, other)",
          "new": "            return CombinedDetector(other, *self.subsets)", "rule": "R19b"},
         {"name": "len counts subsets", "file": "pyrex/detector.py", "old": "        return len(list(flatten(self.subsets)))", "new": "        return len(self.subsets)", "rule": "R19a"},
